@@ -5,6 +5,8 @@ CONSTANTS
   Mode = "async"
   AtomicQueue = FALSE
   StaleTimeout = FALSE
+  StaleLists = FALSE
+  ThresholdBefore = TRUE
   InitStates = {"Queued"}
   B <- BCrash
   MaxHist = 0
